@@ -88,6 +88,21 @@ def history_case(rng):
     return {"partial": rng.random() < 0.2, "terms": terms, "events": evs}
 
 
+def directed_histories():
+    """a single-use value of an ORDERED pattern requested again, on a method that has a real function, in strict and partial mocks,
+    through the original and a clone: the second request is an error (the ordered sequence is exhausted), never a value from elsewhere"""
+    out = []
+    for partial in (False, True):
+        for mid in (4, 0):                  # both have a registered real function; m4 returns the non-Clone type
+            for opener, ops in (("next", [("ret", 7)]), ("next", [("ret", 7), ("once",)]), ("some", [("ret", 7)]), ("some", [("ret", 7), ("once",)])):
+                for via in (0, 1):
+                    terms = [{"kind": "call", "mid": mid, "opener": opener, "pat": {"matcher": 255, "dbg": 1, "ops": ops}}]
+                    evs = [{"base": ("clone", 0)}, {"base": ("call", 0, mid, 1)}, {"base": ("live",)}, {"base": ("call", via, mid, 2)}, {"base": ("live",)},
+                           {"base": ("call", 0, mid, 3)}, {"base": ("drop", 1)}, {"base": ("verify", 0)}, {"base": ("live",)}]
+                    out.append({"partial": partial, "terms": terms, "events": evs})
+    return out
+
+
 def single_use_requested_twice(case):
     n = collections.Counter(e["base"][2] for e in case["events"] if e["base"][0] == "call")
     for t in case["terms"]:
@@ -163,7 +178,7 @@ def run(tier, seed):
     race_res_bad = [i for i in race_bad if B.results_only(B.project(ri[i])) != B.results_only(B.project(rm[i]))]
     # (histories)
     heng = Engine("C12", project=proj_kinds); heng.build()
-    hist = [history_case(rng) for _ in range(400 if tier == "quick" else 4000)]
+    hist = directed_histories() + [history_case(rng) for _ in range(400 if tier == "quick" else 4000)]
     hbad, hi, hm = heng.disagreements(hist)
     nt = sum(1 for c in {canon(c): c for c in hist}.values() if single_use_requested_twice(c))
     nt += sum(1 for c in {canon({k: v for k, v in c.items() if not k.startswith('_')}): c for c in races}.values()
